@@ -54,6 +54,12 @@ def run(ctx) -> None:
              "with the position component and the wave-vector component of the same axis")
     ctx.rule("R-ANGLES", "the CTF coefficients are evaluated at alpha = |k|*wavelength and phi = arctan2(k_y, k_x), the "
              "same convention as the real-space probe's angular grid (grid.polar_spatial_frequencies)")
+    ctx.rule("R-FLATORDER", "batch_crop_2d flattens (batch axes..., positions) to one leading axis in C order, so the "
+             "position index varies fastest: the per-position crop corners are extended to the flattened length by "
+             "block-wise replication (np.tile(corners, (n_batch, 1)), broadcast_to + reshape, concatenation of whole "
+             "copies) — an element-wise np.repeat(corners, n_batch, axis=0) pairs window k of batch b with the corner "
+             "of another position whenever there is more than one batch member (several frozen-phonon configurations "
+             "in one eager S-matrix)")
     ctx.rule("R-FRESHCOEFF", "inside the CTF / scan-position loops of _batch_reduce_to_measurements every in-place write "
              "(augmented assignment, subscript store, out=) other than the store into the output measurement goes to "
              "a buffer created in the same iteration (ownership class FRESH of sa/rules/arrayown.py): coefficients "
@@ -179,6 +185,29 @@ def run(ctx) -> None:
     ctx.check(okg, "R-ANGLES", f"{g.qualname}:phi", g.loc(at2[0]), f"real-space convention arctan2({', '.join(args)})",
               f"real-space azimuth is arctan2({', '.join(args)}): differs from the PRISM convention arctan2(k_y, k_x)",
               key_detail="grid-phi")
+
+    # ---------------- R-FLATORDER
+    bc = repo.function("abtem.prism.utils", "batch_crop_2d")
+    cparam = bc.positional_params[1]
+    dfc = DataFlow(bc.node)
+    reps = []
+    for c_ in walk_no_nested(bc.node):
+        if isinstance(c_, ast.Call) and (call_name(c_) or "").split(".")[-1] in ("tile", "repeat", "broadcast_to",
+                                                                                 "concatenate", "stack") and c_.args:
+            stc = next((s_ for s_ in walk_no_nested(bc.node) if isinstance(s_, ast.stmt) and any(x is c_ for x in ast.walk(s_))
+                        and not isinstance(s_, (ast.If, ast.For, ast.With, ast.Try, ast.FunctionDef))), None)
+            if stc is None:
+                continue
+            src = c_.args[0] if (call_name(c_) or "").split(".")[0] in ("np", "xp", "numpy", "cp") else c_.func.value
+            if cparam in dfc.backward_slice(dfc.cfg.node_of(stc).idx, src).params:
+                reps.append(((call_name(c_) or "").split(".")[-1], c_))
+    ctx.require(reps, f"{bc.qualname}: the replication of `{cparam}` over the batch axes was not found")
+    for kind, c_ in reps:
+        ctx.check(kind != "repeat", "R-FLATORDER", f"{bc.qualname}:corners replicated block-wise", bc.loc(c_),
+                  f"`{norm_text(c_)[:60]}` repeats the whole corner list once per batch member",
+                  f"`{norm_text(c_)[:70]}` repeats each corner consecutively (element-wise) although the flattened leading "
+                  "axis runs over the positions fastest: with more than one batch member the windows are cropped at "
+                  "other positions' corners", key_detail="flatorder")
 
     # ---------------- R-FRESHCOEFF (before the anchors of R-CONTRACT: a violation decides even if those are lost)
     from ..rules import inplace
